@@ -338,6 +338,14 @@ def _run_unit_once(unit_path, repo="/repo", tier="quick", seed=0, keep=False, ex
                 if sp["is_primary"] and prim is None:
                     prim = sp
             if prim is None:
+                # the violated clause lives outside the unit file (a trait specification of vstd, e.g. PartialEq::eq == eq_spec):
+                # the function is the one whose exit the diagnostic names
+                for sp in d["spans"]:
+                    if sp["file_name"].endswith(res["unit"] + ".rs") and sp.get("label") and \
+                            ("at this exit" in sp["label"] or "at the end of the function body" in sp["label"]):
+                        prim = sp
+                        break
+            if prim is None:
                 # error located outside the unit file (e.g. in vstd) - treat as undecided
                 res["undecided"].append(f"diagnostic without location in unit: {msg}")
                 continue
